@@ -1,12 +1,1382 @@
-//! C17 - not built yet.
-use crate::run::Ctx;
-use serde_json::Value;
+//! C17 - with / from_partial use only supplied fields; constrain clamps, reject errors.
+//!
+//! Sub-checks
+//!  * `merge`    differential against a reference merge (supplied field, else the receiver's / the type
+//!               default; month vs monthCode agreement; constrain clamps, reject errors; required fields;
+//!               supported range) for PlainDate / PlainTime / PlainDateTime / PlainYearMonth `with` and
+//!               `from_partial` and `ZonedDateTime::from_partial_with_provider` (UTC / fixed zones), plus the
+//!               model-free law "a field that was not supplied is unchanged unless clamping forces it".
+//!  * `ctor`     `new` / `try_new` / `new_with_overflow` of the four plain types against RegulateISODate /
+//!               RegulateTime + range check.
+//!  * `identity` `v.with(any non-empty subset of v's own fields) == v` (model-free).
+//!  * `compose`  `v.with(p1).with(p2) == v.with(p1 merged p2)` when no clamping occurs, i.e. when the chain
+//!               succeeds under `reject` (model-free).
+//!
+//! ISO calendar only (non-ISO merges belong to C16).
 
-pub fn run(_ctx: &mut Ctx) {
-    eprintln!("property C17 has no check yet");
-    std::process::exit(2);
+use crate::chk;
+use crate::conv::*;
+use crate::gen;
+use crate::refm::civil::*;
+use crate::refm::fmt;
+use crate::refm::tz::Zone;
+use crate::run::*;
+use crate::tzp::TableProvider;
+use proptest::prelude::*;
+use serde::{Deserialize, Serialize};
+use serde_json::Value;
+use std::str::FromStr;
+use temporal_rs::error::ErrorKind;
+use temporal_rs::options::ArithmeticOverflow;
+use temporal_rs::partial::{PartialDate, PartialDateTime, PartialTime, PartialZonedDateTime};
+use temporal_rs::{
+    MonthCode, PlainDate, PlainDateTime, PlainTime, PlainYearMonth, TemporalError, TimeZone, TinyAsciiStr, UtcOffset,
+    ZonedDateTime,
+};
+
+// ------------------------------------------------------------------------------------------
+// case data
+
+#[derive(Serialize, Deserialize, Debug, Clone, Copy, PartialEq, Eq)]
+pub enum Ty {
+    Date,
+    Time,
+    DateTime,
+    YearMonth,
+    Zoned,
+}
+#[derive(Serialize, Deserialize, Debug, Clone, Copy, PartialEq, Eq)]
+pub enum Op {
+    With,
+    From,
+}
+#[derive(Serialize, Deserialize, Debug, Clone, Copy, PartialEq, Eq)]
+pub enum Ov {
+    Absent,
+    Constrain,
+    Reject,
+}
+impl Ov {
+    fn opt(self) -> Option<ArithmeticOverflow> {
+        match self {
+            Ov::Absent => None,
+            Ov::Constrain => Some(ArithmeticOverflow::Constrain),
+            Ov::Reject => Some(ArithmeticOverflow::Reject),
+        }
+    }
+    fn bare(self) -> ArithmeticOverflow {
+        self.opt().unwrap_or(ArithmeticOverflow::Constrain)
+    }
+    fn reject(self) -> bool {
+        self == Ov::Reject
+    }
 }
 
-pub fn replay(_ctx: &mut Ctx, _sub: &str, _case: &Value) -> bool {
-    false
+/// partial date record; `month_code` / `era` are the strings handed to `MonthCode::from_str` /
+/// `TinyAsciiStr::try_from_utf8` (only strings those constructors accept are generated)
+#[derive(Serialize, Deserialize, Debug, Clone, Default, PartialEq)]
+pub struct PD {
+    pub year: Option<i32>,
+    pub month: Option<u8>,
+    pub month_code: Option<String>,
+    pub day: Option<u8>,
+    pub era: Option<String>,
+    pub era_year: Option<i32>,
+}
+#[derive(Serialize, Deserialize, Debug, Clone, Copy, Default, PartialEq)]
+pub struct PT {
+    pub hour: Option<u8>,
+    pub minute: Option<u8>,
+    pub second: Option<u8>,
+    pub millisecond: Option<u16>,
+    pub microsecond: Option<u16>,
+    pub nanosecond: Option<u16>,
+}
+impl PD {
+    fn has_era(&self) -> bool {
+        self.era.is_some() || self.era_year.is_some()
+    }
+    fn is_empty(&self) -> bool {
+        *self == PD::default()
+    }
+    fn build(&self) -> PartialDate {
+        PartialDate::new()
+            .with_year(self.year)
+            .with_month(self.month)
+            .with_month_code(self.month_code.as_ref().map(|s| MonthCode::from_str(s).expect("generated month codes are constructible")))
+            .with_day(self.day)
+            .with_era(self.era.as_ref().map(|s| TinyAsciiStr::<19>::try_from_utf8(s.as_bytes()).expect("generated eras fit 19 ascii bytes")))
+            .with_era_year(self.era_year)
+    }
+}
+impl PT {
+    fn arr(&self) -> [Option<u16>; 6] {
+        [
+            self.hour.map(u16::from),
+            self.minute.map(u16::from),
+            self.second.map(u16::from),
+            self.millisecond,
+            self.microsecond,
+            self.nanosecond,
+        ]
+    }
+    fn is_empty(&self) -> bool {
+        *self == PT::default()
+    }
+    fn build(&self) -> PartialTime {
+        PartialTime::new()
+            .with_hour(self.hour)
+            .with_minute(self.minute)
+            .with_second(self.second)
+            .with_millisecond(self.millisecond)
+            .with_microsecond(self.microsecond)
+            .with_nanosecond(self.nanosecond)
+    }
+}
+
+const TMAX: [u16; 6] = [23, 59, 59, 999, 999, 999];
+
+#[derive(Serialize, Deserialize, Debug, Clone, Copy, PartialEq, Eq)]
+pub enum ZoneSel {
+    /// `TimeZone::IanaIdentifier("UTC")` served by the harness provider
+    UtcNamed,
+    /// `TimeZone::UtcOffset`, minutes
+    Offset(i16),
+    /// a named zone with one fixed offset (minutes) served by `tzp::TableProvider`
+    Table(i16),
+}
+impl ZoneSel {
+    fn minutes(self) -> i64 {
+        match self {
+            ZoneSel::UtcNamed => 0,
+            ZoneSel::Offset(m) | ZoneSel::Table(m) => m as i64,
+        }
+    }
+    fn tz(self) -> TimeZone {
+        match self {
+            ZoneSel::UtcNamed => TimeZone::IanaIdentifier("UTC".into()),
+            ZoneSel::Offset(m) => TimeZone::try_from_identifier_str(&fmt::offset_minutes(m as i64)).expect("offset zone"),
+            ZoneSel::Table(_) => TimeZone::IanaIdentifier("Test/Fixed".into()),
+        }
+    }
+    fn provider(self) -> TableProvider {
+        match self {
+            ZoneSel::Table(m) => TableProvider::new(vec![Zone::fixed("Test/Fixed", m as i64 * 60)]),
+            _ => TableProvider::utc_only(),
+        }
+    }
+}
+
+/// the observable fields of a result (fields a type does not have are 0)
+#[derive(Debug, Clone, Copy, PartialEq, Eq, Default)]
+struct Fields {
+    y: i64,
+    m: u8,
+    d: u8,
+    t: [u16; 6],
+    epoch: Option<i128>,
+}
+
+fn f_date(p: &PlainDate) -> Fields {
+    Fields { y: p.iso_year() as i64, m: p.iso_month(), d: p.iso_day(), ..Default::default() }
+}
+fn t_arr(h: u8, mi: u8, s: u8, ms: u16, us: u16, ns: u16) -> [u16; 6] {
+    [h as u16, mi as u16, s as u16, ms, us, ns]
+}
+fn f_time(p: &PlainTime) -> Fields {
+    Fields { t: t_arr(p.hour(), p.minute(), p.second(), p.millisecond(), p.microsecond(), p.nanosecond()), ..Default::default() }
+}
+fn f_dt(p: &PlainDateTime) -> Fields {
+    Fields {
+        y: p.iso_year() as i64,
+        m: p.iso_month(),
+        d: p.iso_day(),
+        t: t_arr(p.hour(), p.minute(), p.second(), p.millisecond(), p.microsecond(), p.nanosecond()),
+        epoch: None,
+    }
+}
+fn f_ym(p: &PlainYearMonth) -> Fields {
+    Fields { y: p.iso_year() as i64, m: p.iso_month(), ..Default::default() }
+}
+fn f_zdt(p: &ZonedDateTime) -> Fields {
+    Fields { epoch: Some(p.epoch_nanoseconds().as_i128()), ..Default::default() }
+}
+
+fn t_of_ns(ns: i128) -> [u16; 6] {
+    let (h, mi, s, ms, us, n) = split_ns(ns);
+    t_arr(h, mi, s, ms, us, n)
+}
+fn ns_of_t(t: &[u16; 6]) -> i128 {
+    ((t[0] as i128 * 60 + t[1] as i128) * 60 + t[2] as i128) * 1_000_000_000 + t[3] as i128 * 1_000_000 + t[4] as i128 * 1_000 + t[5] as i128
+}
+
+/// receivers built through the validating constructors from (day number, ns of day)
+fn recv_date(day: i64) -> PlainDate {
+    let (y, m, d) = from_days(day);
+    PlainDate::try_new(y as i32, m, d, iso()).expect("receiver date")
+}
+fn recv_time(ns: i128) -> PlainTime {
+    plain_time(ns).expect("receiver time")
+}
+fn recv_dt(day: i64, ns: i128) -> PlainDateTime {
+    let (y, m, d) = from_days(day);
+    let t = split_ns(ns);
+    PlainDateTime::try_new(y as i32, m, d, t.0, t.1, t.2, t.3, t.4, t.5, iso()).expect("receiver date-time")
+}
+/// the receiver's hidden reference day is the generated day (it must not influence `with`)
+fn recv_ym(day: i64) -> PlainYearMonth {
+    let (y, m, d) = from_days(day);
+    PlainYearMonth::new_with_overflow(y as i32, m, Some(d), iso(), ArithmeticOverflow::Reject).expect("receiver year-month")
+}
+
+// ------------------------------------------------------------------------------------------
+// reference merge
+
+/// which error kinds the model admits
+#[derive(Debug, Clone, Copy, PartialEq, Eq)]
+struct ErrSet {
+    ty: bool,
+    range: bool,
+}
+impl ErrSet {
+    fn admits(&self, k: ErrorKind) -> bool {
+        (self.ty && k == ErrorKind::Type) || (self.range && k == ErrorKind::Range)
+    }
+    fn name(&self) -> &'static str {
+        match (self.ty, self.range) {
+            (true, true) => "TypeError or RangeError",
+            (true, false) => "TypeError",
+            (false, true) => "RangeError",
+            _ => "error",
+        }
+    }
+}
+
+/// ISO month code: `M01`..`M12`, nothing else
+fn iso_month_code(s: &str) -> Option<u8> {
+    let b = s.as_bytes();
+    if b.len() != 3 || b[0] != b'M' || !b[1].is_ascii_digit() || !b[2].is_ascii_digit() {
+        return None;
+    }
+    let n = (b[1] - b'0') * 10 + (b[2] - b'0');
+    (1..=12).contains(&n).then_some(n)
+}
+
+struct ModelIn<'a> {
+    ty: Ty,
+    op: Op,
+    /// receiver (y, m, d) and time; for `from` the type defaults (no date; time 0)
+    recv_ymd: Option<(i64, u8, u8)>,
+    recv_t: [u16; 6],
+    pd: &'a PD,
+    pt: &'a PT,
+    reject: bool,
+    offset_s: i64,
+}
+
+struct ModelOut {
+    res: Result<Fields, ErrSet>,
+    /// some field of the merged record had to be clamped (constrain) to give the result
+    clamped: bool,
+    /// a supplied value is outside its field's range
+    supplied_out_of_range: bool,
+}
+
+/// Reference merge. Era fields are not ISO calendar fields and are not looked at (cases that supply them
+/// are executed but not judged, see `run`).
+fn model(i: &ModelIn) -> ModelOut {
+    let has_date = i.ty != Ty::Time;
+    let has_time = matches!(i.ty, Ty::Time | Ty::DateTime | Ty::Zoned);
+    let day_is_field = has_date && i.ty != Ty::YearMonth;
+    let pd = i.pd;
+    let pta = i.pt.arr();
+    let date_any = has_date && (pd.year.is_some() || pd.month.is_some() || pd.month_code.is_some() || (day_is_field && pd.day.is_some()));
+    let time_any = has_time && pta.iter().any(|x| x.is_some());
+
+    // --- TypeError conditions
+    let type_err = match i.op {
+        Op::With => !(date_any || time_any),
+        Op::From => {
+            let date_missing = has_date && (pd.year.is_none() || (pd.month.is_none() && pd.month_code.is_none()) || (day_is_field && pd.day.is_none()));
+            date_missing || (i.ty == Ty::Time && !time_any)
+        }
+    };
+
+    // --- static range suspicion of the supplied values (used for the kind when a TypeError condition holds too)
+    let mc_num = pd.month_code.as_deref().map(iso_month_code);
+    let mut suspicious = false;
+    let mut supplied_oor = false;
+    if has_date {
+        if let Some(m) = pd.month {
+            if !(1..=12).contains(&m) {
+                suspicious = true;
+                supplied_oor = true;
+            }
+        }
+        if let Some(c) = mc_num {
+            match c {
+                None => {
+                    suspicious = true;
+                    supplied_oor = true;
+                }
+                Some(n) => {
+                    if pd.month.is_some() && pd.month != Some(n) {
+                        suspicious = true;
+                    }
+                }
+            }
+        }
+        if let Some(d) = pd.day {
+            if !(1..=28).contains(&d) {
+                suspicious = true;
+            }
+            if !(1..=31).contains(&d) {
+                supplied_oor = true;
+            }
+        }
+        if let Some(y) = pd.year {
+            if !(-271820..=275759).contains(&y) {
+                suspicious = true;
+            }
+            if !(-271821..=275760).contains(&y) {
+                supplied_oor = true;
+            }
+        }
+    }
+    if has_time {
+        for k in 0..6 {
+            if let Some(v) = pta[k] {
+                if v > TMAX[k] {
+                    suspicious = true;
+                    supplied_oor = true;
+                }
+            }
+        }
+    }
+    if type_err {
+        return ModelOut { res: Err(ErrSet { ty: true, range: suspicious }), clamped: false, supplied_out_of_range: supplied_oor };
+    }
+
+    let range = |oor: bool| ModelOut { res: Err(ErrSet { ty: false, range: true }), clamped: false, supplied_out_of_range: oor };
+    let mut clamped = false;
+    let mut out = Fields::default();
+
+    // --- date part
+    if has_date {
+        let (ry, rm, rd) = i.recv_ymd.unwrap_or((0, 0, 0)); // `from`: every needed field is supplied (checked above)
+        let y: i64 = pd.year.map(i64::from).unwrap_or(ry);
+        // month: a supplied month or monthCode replaces the receiver's month *and* month code
+        let m: u8 = match (pd.month, mc_num) {
+            (_, Some(None)) => return range(supplied_oor), // not an ISO month code
+            (Some(m), Some(Some(n))) => {
+                if m != n {
+                    return range(supplied_oor); // month contradicts monthCode (before any clamping)
+                }
+                n
+            }
+            (None, Some(Some(n))) => n,
+            (Some(m), None) => {
+                if (1..=12).contains(&m) {
+                    m
+                } else if i.reject {
+                    return range(supplied_oor);
+                } else {
+                    clamped = true;
+                    m.clamp(1, 12)
+                }
+            }
+            (None, None) => rm,
+        };
+        let d_raw: u8 = if day_is_field { pd.day.unwrap_or(rd) } else { 1 };
+        let dmax = dim(y, m);
+        if day_is_field && pd.day.is_some() && !(1..=dmax).contains(&d_raw) {
+            supplied_oor = true;
+        }
+        let d = if (1..=dmax).contains(&d_raw) {
+            d_raw
+        } else if i.reject {
+            return range(supplied_oor);
+        } else {
+            clamped = true;
+            d_raw.clamp(1, dmax)
+        };
+        out.y = y;
+        out.m = m;
+        out.d = d;
+    }
+    // --- time part
+    if has_time {
+        for k in 0..6 {
+            let v = pta[k].unwrap_or(i.recv_t[k]);
+            out.t[k] = if v <= TMAX[k] {
+                v
+            } else if i.reject {
+                return range(supplied_oor);
+            } else {
+                clamped = true;
+                TMAX[k]
+            };
+        }
+    }
+    // --- supported range
+    let in_range = match i.ty {
+        Ty::Time => true,
+        Ty::Date => date_in_range(to_days(out.y, out.m, out.d)),
+        Ty::DateTime => datetime_in_range(to_days(out.y, out.m, out.d), ns_of_t(&out.t)),
+        Ty::YearMonth => ym_in_range(out.y, out.m),
+        Ty::Zoned => {
+            let wall = to_days(out.y, out.m, out.d) as i128 * NS_PER_DAY + ns_of_t(&out.t);
+            let e = wall - i.offset_s as i128 * 1_000_000_000;
+            out.epoch = Some(e);
+            instant_in_range(e)
+        }
+    };
+    if !in_range {
+        return range(supplied_oor);
+    }
+    // projection on what the type shows
+    match i.ty {
+        Ty::YearMonth => out.d = 0,
+        Ty::Zoned => out = Fields { epoch: out.epoch, ..Default::default() },
+        _ => {}
+    }
+    ModelOut { res: Ok(out), clamped, supplied_out_of_range: supplied_oor }
+}
+
+// ------------------------------------------------------------------------------------------
+// merge sub-check
+
+#[derive(Serialize, Deserialize, Debug, Clone)]
+pub struct MergeCase {
+    pub ty: Ty,
+    pub op: Op,
+    pub recv_day: i64,
+    pub recv_ns: i128,
+    pub pd: PD,
+    pub pt: PT,
+    pub ov: Ov,
+    pub zone: ZoneSel,
+    pub offset_given: bool,
+}
+pub struct MergeSub;
+
+fn label(ty: Ty, op: Op) -> &'static str {
+    match (ty, op) {
+        (Ty::Date, Op::With) => "date.with",
+        (Ty::Date, Op::From) => "date.from_partial",
+        (Ty::Time, Op::With) => "time.with",
+        (Ty::Time, Op::From) => "time.from_partial",
+        (Ty::DateTime, Op::With) => "datetime.with",
+        (Ty::DateTime, Op::From) => "datetime.from_partial",
+        (Ty::YearMonth, Op::With) => "yearmonth.with",
+        (Ty::YearMonth, Op::From) => "yearmonth.from_partial",
+        (Ty::Zoned, _) => "zoned.from_partial",
+    }
+}
+
+fn show(r: &Result<Fields, TemporalError>) -> String {
+    match r {
+        Ok(f) => format!("{f:?}"),
+        Err(e) => err_str(e),
+    }
+}
+
+/// executes the operation under test; a panic becomes `Err(Err(location))`
+fn execute(c: &MergeCase) -> Result<Result<Fields, TemporalError>, String> {
+    guard(|| match (c.ty, c.op) {
+        (Ty::Date, Op::With) => recv_date(c.recv_day).with(c.pd.build(), c.ov.opt()).map(|r| f_date(&r)),
+        (Ty::Date, Op::From) => PlainDate::from_partial(c.pd.build(), c.ov.opt()).map(|r| f_date(&r)),
+        (Ty::Time, Op::With) => recv_time(c.recv_ns).with(c.pt.build(), c.ov.opt()).map(|r| f_time(&r)),
+        (Ty::Time, Op::From) => PlainTime::from_partial(c.pt.build(), c.ov.opt()).map(|r| f_time(&r)),
+        (Ty::DateTime, Op::With) => recv_dt(c.recv_day, c.recv_ns)
+            .with(PartialDateTime::new().with_partial_date(c.pd.build()).with_partial_time(c.pt.build()), c.ov.opt())
+            .map(|r| f_dt(&r)),
+        (Ty::DateTime, Op::From) => {
+            PlainDateTime::from_partial(PartialDateTime::new().with_partial_date(c.pd.build()).with_partial_time(c.pt.build()), c.ov.opt()).map(|r| f_dt(&r))
+        }
+        (Ty::YearMonth, Op::With) => recv_ym(c.recv_day).with(c.pd.build(), c.ov.opt()).map(|r| f_ym(&r)),
+        (Ty::YearMonth, Op::From) => PlainYearMonth::from_partial(c.pd.build(), c.ov.bare()).map(|r| f_ym(&r)),
+        (Ty::Zoned, _) => {
+            let offset = c.offset_given.then(|| UtcOffset::from_str(&fmt::offset_minutes(c.zone.minutes())).expect("offset string"));
+            let p = PartialZonedDateTime::new().with_date(c.pd.build()).with_time(c.pt.build()).with_offset(offset).with_timezone(Some(c.zone.tz()));
+            ZonedDateTime::from_partial_with_provider(p, c.ov.opt(), None, None, &c.zone.provider()).map(|r| f_zdt(&r))
+        }
+    })
+}
+
+impl SubCheck for MergeSub {
+    type Case = MergeCase;
+    fn name(&self) -> &'static str {
+        "merge"
+    }
+    fn eval(&self, c: &MergeCase) -> Outcome {
+        let lab = label(c.ty, c.op);
+        let has_date = c.ty != Ty::Time;
+        let has_time = matches!(c.ty, Ty::Time | Ty::DateTime | Ty::Zoned);
+        // fields the type does not have are not part of the case
+        let pd = if has_date { c.pd.clone() } else { PD::default() };
+        let pt = if has_time { c.pt } else { PT::default() };
+        let (ry, rm, rd) = from_days(c.recv_day);
+        let mi = ModelIn {
+            ty: c.ty,
+            op: c.op,
+            recv_ymd: (c.op == Op::With).then_some((ry, rm, rd)),
+            recv_t: if c.op == Op::With { t_of_ns(c.recv_ns) } else { [0; 6] },
+            pd: &pd,
+            pt: &pt,
+            reject: c.ov.reject(),
+            offset_s: c.zone.minutes() * 60,
+        };
+        let mo = model(&mi);
+        let c2 = MergeCase { pd: pd.clone(), pt, ..c.clone() };
+
+        // --- classes and the non-triviality rule
+        let n_fields = if has_date { if c.ty == Ty::YearMonth { 3 } else { 4 } } else { 0 } + if has_time { 6 } else { 0 };
+        let n_supplied = [pd.year.is_some(), pd.month.is_some(), pd.month_code.is_some(), pd.day.is_some() && c.ty != Ty::YearMonth].iter().filter(|b| **b).count()
+            + pt.arr().iter().filter(|x| x.is_some()).count();
+        let both_months = pd.month.is_some() && pd.month_code.is_some();
+        let mut o = Outcome::pass().class(lab);
+        o = o.nontrivial((n_supplied >= 1 && n_supplied < n_fields) || mo.supplied_out_of_range || both_months);
+        o = o.class(match c.ov {
+            Ov::Absent => "overflow-absent",
+            Ov::Constrain => "constrain",
+            Ov::Reject => "reject",
+        });
+        if both_months {
+            o = o.class("month+monthCode");
+        }
+        if mo.supplied_out_of_range {
+            o = o.class("supplied-out-of-range");
+        }
+        if mo.clamped {
+            o = o.class("expect-clamped");
+        }
+        if n_supplied == 0 && !pd.has_era() {
+            o = o.class("empty-record");
+        }
+        if pd.year.map_or(false, |y| !(-271821..=275760).contains(&y)) {
+            o = o.class("year-beyond-range");
+        }
+        o = o.class(match &mo.res {
+            Ok(_) => "expect-ok",
+            Err(ErrSet { ty: true, range: false }) => "expect-TypeError",
+            Err(ErrSet { ty: false, .. }) => "expect-RangeError",
+            Err(_) => "expect-Type-or-RangeError",
+        });
+
+        // --- run
+        let got = match execute(&c2) {
+            Ok(r) => r,
+            Err(p) => return o.class("panic").fail(panic_signature(lab, &p), "no panic", p),
+        };
+
+        // --- unjudged classes
+        if pd.has_era() {
+            // ISO 8601 has no eras: Temporal never reads era / eraYear for this calendar (they would be
+            // ignored), while the crate gives the ISO calendar an era named "default" and otherwise reports
+            // Type/RangeErrors. Executed (panics count), not compared.
+            o.unjudged = true;
+            return o.class("unjudged:era-on-iso").class(match &got {
+                Ok(_) => "era-on-iso:ok",
+                Err(e) if e.kind() == ErrorKind::Type => "era-on-iso:TypeError",
+                Err(e) if e.kind() == ErrorKind::Range => "era-on-iso:RangeError",
+                Err(_) => "era-on-iso:other-error",
+            });
+        }
+        if c.ty == Ty::YearMonth && pd.day.is_some() {
+            let only_day = pd.year.is_none() && pd.month.is_none() && pd.month_code.is_none();
+            if c.op == Op::With && only_day {
+                // Temporal: `day` is not a year-month field, the record counts as empty (TypeError); the
+                // record handed to the crate is not empty. Doubtful -> not compared.
+                o.unjudged = true;
+                return o.class("unjudged:yearmonth.with-day-only");
+            }
+            if c.op == Op::From && c.ov.reject() {
+                // Temporal ignores `day` here; the crate regulates it as the reference day (as its
+                // constructor does). Doubtful when the day is invalid for the month -> not compared.
+                if let (Some(y), Ok(m)) = (pd.year, month_for_day_check(&pd)) {
+                    if !(1..=dim(y as i64, m)).contains(&pd.day.unwrap()) {
+                        o.unjudged = true;
+                        return o.class("unjudged:yearmonth.from_partial-invalid-day-under-reject");
+                    }
+                }
+            }
+        }
+
+        // --- compare with the reference merge
+        match (&mo.res, &got) {
+            (Ok(w), Ok(g)) => {
+                if g != w {
+                    return o.fail(format!("C17/{lab}/mismatch"), format!("{w:?}"), format!("{g:?}"));
+                }
+            }
+            (Err(es), Err(e)) => {
+                if !es.admits(e.kind()) {
+                    let sig = known_error_signature(&c2, &mo, e).unwrap_or_else(|| format!("C17/{lab}/error-kind"));
+                    return o.fail(sig, es.name(), err_str(e));
+                }
+            }
+            (Ok(w), Err(e)) => {
+                let sig = known_error_signature(&c2, &mo, e).unwrap_or_else(|| format!("C17/{lab}/unexpected-error"));
+                return o.fail(sig, format!("{w:?}"), err_str(e));
+            }
+            (Err(es), Ok(g)) => {
+                let sig = known_accept_signature(&c2, g).unwrap_or_else(|| format!("C17/{lab}/accepted"));
+                return o.fail(sig, es.name(), format!("{g:?}"));
+            }
+        }
+
+        // --- model-free: a field that was not supplied is unchanged unless clamping forces it
+        if c.op == Op::With {
+            if let Ok(g) = &got {
+                let sig = format!("C17/{lab}/unsupplied-field-changed");
+                if has_date {
+                    if pd.year.is_none() {
+                        chk!(o, g.y == ry, sig.clone(), ("year", ry), g);
+                    }
+                    if pd.month.is_none() && pd.month_code.is_none() {
+                        chk!(o, g.m == rm, sig.clone(), ("month", rm), g);
+                    }
+                    if c.ty != Ty::YearMonth && pd.day.is_none() {
+                        let forced = g.d < rd && g.d == dim(g.y, g.m) && !c.ov.reject();
+                        chk!(o, g.d == rd || forced, sig.clone(), ("day", rd), g);
+                    }
+                }
+                if has_time {
+                    let rt = t_of_ns(c.recv_ns);
+                    let pta = pt.arr();
+                    for k in 0..6 {
+                        if pta[k].is_none() {
+                            chk!(o, g.t[k] == rt[k], sig.clone(), ("time field", k, rt[k]), g);
+                        }
+                    }
+                }
+            }
+        }
+        let _ = show;
+        o
+    }
+}
+
+fn month_for_day_check(pd: &PD) -> Result<u8, ()> {
+    match (pd.month, pd.month_code.as_deref().map(iso_month_code)) {
+        (_, Some(None)) => Err(()),
+        (Some(m), Some(Some(n))) if m != n => Err(()),
+        (_, Some(Some(n))) => Ok(n),
+        (Some(m), None) if (1..=12).contains(&m) => Ok(m),
+        _ => Err(()),
+    }
+}
+
+/// Defect model D1 (date.rs `impl_with_fallback_method!`): `with` derives a month code from a supplied
+/// `month` *before* the overflow option is applied, so a month outside 1..=12 under constrain is a
+/// RangeError (13 -> "M13" is not an ISO month code; 0 and 14..=255 have no month code) instead of
+/// being clamped. Matches only: with, month supplied without monthCode, month outside 1..=12, constrain,
+/// the reference merge expects a value, and the error is the RangeError this defect produces.
+fn known_error_signature(c: &MergeCase, mo: &ModelOut, e: &TemporalError) -> Option<String> {
+    // Defect model D4 (zoneddatetime.rs from_partial_with_provider): a record without time fields is
+    // treated as "start of day", which asserts that no offset was given. Matches only: zoned, offset
+    // supplied, no time field supplied, the reference merge expects a value, the error is the assertion.
+    if c.ty == Ty::Zoned && c.offset_given && c.pt.is_empty() && mo.res.is_ok() && e.kind() == ErrorKind::Assert {
+        return Some("C17/zoned.from_partial/offset-without-time-fields/assertion-error".to_string());
+    }
+    if c.op != Op::With || !matches!(c.ty, Ty::Date | Ty::DateTime | Ty::YearMonth) || c.ov.reject() || mo.res.is_err() {
+        return None;
+    }
+    let m = c.pd.month?;
+    if c.pd.month_code.is_some() || (1..=12).contains(&m) || e.kind() != ErrorKind::Range {
+        return None;
+    }
+    let predicted = if m == 13 { "MonthCode was not valid for the current calendar." } else { "Month not in a valid range." };
+    (e.message() == predicted).then(|| "C17/with/month-only-out-of-range-under-constrain/RangeError-instead-of-clamp".to_string())
+}
+/// Defect model D2 (year_month.rs `PlainYearMonth::with`): no emptiness check, an empty record returns
+/// the receiver. Matches only: a record with no field at all and a result equal to the receiver.
+fn known_accept_signature(c: &MergeCase, g: &Fields) -> Option<String> {
+    let (ry, rm, _) = from_days(c.recv_day);
+    (c.ty == Ty::YearMonth && c.op == Op::With && c.pd.is_empty() && g.y == ry && g.m == rm).then(|| SIG_YM_EMPTY.to_string())
+}
+const SIG_YM_EMPTY: &str = "C17/yearmonth.with/empty-record-accepted-as-identity";
+
+/// signature of a panic inside the code under test (no panic is a listed finding: the overflow of the
+/// 32-bit date kernels for years far outside the supported range, found by this check, is fixed in /repo)
+fn panic_signature(lab: &str, p: &str) -> String {
+    let loc = p.split(": ").next().unwrap_or("panic@?").to_string();
+    format!("C17/{lab}/{loc}")
+}
+
+// ------------------------------------------------------------------------------------------
+// constructors
+
+#[derive(Serialize, Deserialize, Debug, Clone, Copy, PartialEq, Eq)]
+pub enum Ctor {
+    New,
+    TryNew,
+    WithOverflow(bool), // true = reject
+}
+#[derive(Serialize, Deserialize, Debug, Clone)]
+pub struct CtorCase {
+    pub ty: Ty,
+    pub ctor: Ctor,
+    pub year: i32,
+    pub month: u8,
+    pub day: u8,
+    /// PlainYearMonth: the reference day argument
+    pub ref_day: Option<u8>,
+    pub hms: [u8; 3],
+    pub sub: [u16; 3],
+}
+pub struct CtorSub;
+
+fn ctor_label(ty: Ty) -> &'static str {
+    match ty {
+        Ty::Date => "date.ctor",
+        Ty::Time => "time.ctor",
+        Ty::DateTime => "datetime.ctor",
+        Ty::YearMonth => "yearmonth.ctor",
+        Ty::Zoned => "zoned.ctor",
+    }
+}
+
+impl SubCheck for CtorSub {
+    type Case = CtorCase;
+    fn name(&self) -> &'static str {
+        "ctor"
+    }
+    fn eval(&self, c: &CtorCase) -> Outcome {
+        let lab = ctor_label(c.ty);
+        let reject = match c.ctor {
+            Ctor::New => false,
+            Ctor::TryNew => true,
+            Ctor::WithOverflow(r) => r,
+        };
+        // every field is supplied: the reference merge of a complete record
+        let pd = PD {
+            year: Some(c.year),
+            month: Some(c.month),
+            month_code: None,
+            day: Some(if c.ty == Ty::YearMonth { c.ref_day.unwrap_or(1) } else { c.day }),
+            era: None,
+            era_year: None,
+        };
+        let pt = PT {
+            hour: Some(c.hms[0]),
+            minute: Some(c.hms[1]),
+            second: Some(c.hms[2]),
+            millisecond: Some(c.sub[0]),
+            microsecond: Some(c.sub[1]),
+            nanosecond: Some(c.sub[2]),
+        };
+        let mo = if c.ty == Ty::YearMonth {
+            // the year-month constructor regulates its reference day like a date's day (Temporal: the
+            // constructor throws for an invalid reference day); the range is that of a year-month
+            ctor_ym_model(c.year as i64, c.month, c.ref_day.unwrap_or(1), reject)
+        } else {
+            model(&ModelIn { ty: c.ty, op: Op::From, recv_ymd: None, recv_t: [0; 6], pd: &pd, pt: &pt, reject, offset_s: 0 })
+        };
+        let mut o = Outcome::pass().class(lab).class(if reject { "reject" } else { "constrain" });
+        o = o.nontrivial(mo.supplied_out_of_range);
+        if mo.supplied_out_of_range {
+            o = o.class("supplied-out-of-range");
+        }
+        if mo.clamped {
+            o = o.class("expect-clamped");
+        }
+        if !(-271821..=275760).contains(&c.year) && c.ty != Ty::Time {
+            o = o.class("year-beyond-range");
+        }
+        o = o.class(if mo.res.is_ok() { "expect-ok" } else { "expect-RangeError" });
+        let c = c.clone();
+        let got = guard(|| {
+            let ov = if reject { ArithmeticOverflow::Reject } else { ArithmeticOverflow::Constrain };
+            match c.ty {
+                Ty::Date => match c.ctor {
+                    Ctor::New => PlainDate::new(c.year, c.month, c.day, iso()),
+                    Ctor::TryNew => PlainDate::try_new(c.year, c.month, c.day, iso()),
+                    Ctor::WithOverflow(_) => PlainDate::new_with_overflow(c.year, c.month, c.day, iso(), ov),
+                }
+                .map(|r| f_date(&r)),
+                Ty::Time => match c.ctor {
+                    Ctor::New => PlainTime::new(c.hms[0], c.hms[1], c.hms[2], c.sub[0], c.sub[1], c.sub[2]),
+                    Ctor::TryNew => PlainTime::try_new(c.hms[0], c.hms[1], c.hms[2], c.sub[0], c.sub[1], c.sub[2]),
+                    Ctor::WithOverflow(_) => PlainTime::new_with_overflow(c.hms[0], c.hms[1], c.hms[2], c.sub[0], c.sub[1], c.sub[2], ov),
+                }
+                .map(|r| f_time(&r)),
+                Ty::DateTime => match c.ctor {
+                    Ctor::New => PlainDateTime::new(c.year, c.month, c.day, c.hms[0], c.hms[1], c.hms[2], c.sub[0], c.sub[1], c.sub[2], iso()),
+                    Ctor::TryNew => PlainDateTime::try_new(c.year, c.month, c.day, c.hms[0], c.hms[1], c.hms[2], c.sub[0], c.sub[1], c.sub[2], iso()),
+                    Ctor::WithOverflow(_) => {
+                        PlainDateTime::new_with_overflow(c.year, c.month, c.day, c.hms[0], c.hms[1], c.hms[2], c.sub[0], c.sub[1], c.sub[2], iso(), ov)
+                    }
+                }
+                .map(|r| f_dt(&r)),
+                Ty::YearMonth | Ty::Zoned => PlainYearMonth::new_with_overflow(c.year, c.month, c.ref_day, iso(), ov).map(|r| f_ym(&r)),
+            }
+        });
+        let got = match got {
+            Ok(r) => r,
+            Err(p) => return o.class("panic").fail(panic_signature(lab, &p), "no panic", p),
+        };
+        match (&mo.res, &got) {
+            (Ok(w), Ok(g)) => {
+                chk!(o, g == w, format!("C17/{lab}/mismatch"), w, g);
+            }
+            (Err(_), Err(e)) => chk!(o, e.kind() == ErrorKind::Range, format!("C17/{lab}/error-kind"), "RangeError", err_str(e)),
+            (Ok(w), Err(e)) => o = o.fail(format!("C17/{lab}/unexpected-error"), format!("{w:?}"), err_str(e)),
+            (Err(_), Ok(g)) => o = o.fail(format!("C17/{lab}/accepted"), "RangeError", format!("{g:?}")),
+        }
+        o
+    }
+}
+
+fn ctor_ym_model(y: i64, m: u8, d: u8, reject: bool) -> ModelOut {
+    let month_ok = (1..=12).contains(&m);
+    let mm = m.clamp(1, 12);
+    let day_ok = (1..=dim(y, mm)).contains(&d);
+    let oor = !month_ok || !(1..=31).contains(&d) || (month_ok && !day_ok) || !(-271821..=275760).contains(&y);
+    let res = if reject && (!month_ok || !day_ok) {
+        Err(ErrSet { ty: false, range: true })
+    } else if !ym_in_range(y, mm) {
+        Err(ErrSet { ty: false, range: true })
+    } else {
+        Ok(Fields { y, m: mm, ..Default::default() })
+    };
+    ModelOut { res, clamped: !month_ok || !day_ok, supplied_out_of_range: oor }
+}
+
+// ------------------------------------------------------------------------------------------
+// laws (model-free)
+
+/// a value of one of the four plain types, as a receiver
+#[derive(Clone, Debug, PartialEq)]
+enum Val {
+    D(PlainDate),
+    T(PlainTime),
+    DT(PlainDateTime),
+    YM(PlainYearMonth),
+}
+impl Val {
+    fn recv(ty: Ty, day: i64, ns: i128) -> Val {
+        match ty {
+            Ty::Date => Val::D(recv_date(day)),
+            Ty::Time => Val::T(recv_time(ns)),
+            Ty::DateTime | Ty::Zoned => Val::DT(recv_dt(day, ns)),
+            Ty::YearMonth => Val::YM(recv_ym(day)),
+        }
+    }
+    fn with(&self, pd: &PD, pt: &PT, ov: Ov) -> Result<Val, TemporalError> {
+        match self {
+            Val::D(v) => v.with(pd.build(), ov.opt()).map(Val::D),
+            Val::T(v) => v.with(pt.build(), ov.opt()).map(Val::T),
+            Val::DT(v) => v.with(PartialDateTime::new().with_partial_date(pd.build()).with_partial_time(pt.build()), ov.opt()).map(Val::DT),
+            Val::YM(v) => v.with(pd.build(), ov.opt()).map(Val::YM),
+        }
+    }
+    fn fields(&self) -> Fields {
+        match self {
+            Val::D(v) => f_date(v),
+            Val::T(v) => f_time(v),
+            Val::DT(v) => f_dt(v),
+            Val::YM(v) => f_ym(v),
+        }
+    }
+}
+fn show_val(r: &Result<Val, TemporalError>) -> String {
+    match r {
+        Ok(v) => format!("{:?}", v.fields()),
+        Err(e) => err_str(e),
+    }
+}
+
+#[derive(Serialize, Deserialize, Debug, Clone)]
+pub struct IdentityCase {
+    pub ty: Ty,
+    pub recv_day: i64,
+    pub recv_ns: i128,
+    /// bit 0 year, 1 month, 2 monthCode, 3 day, 4..=9 hour..nanosecond
+    pub mask: u16,
+    pub ov: Ov,
+}
+pub struct IdentitySub;
+
+fn law_label(ty: Ty) -> &'static str {
+    match ty {
+        Ty::Date => "date",
+        Ty::Time => "time",
+        Ty::DateTime | Ty::Zoned => "datetime",
+        Ty::YearMonth => "yearmonth",
+    }
+}
+/// bits of the mask that are fields of the type
+fn type_bits(ty: Ty) -> u16 {
+    match ty {
+        Ty::Date => 0b1111,
+        Ty::Time => 0b11_1111_0000,
+        Ty::DateTime | Ty::Zoned => 0b11_1111_1111,
+        Ty::YearMonth => 0b0111,
+    }
+}
+
+impl SubCheck for IdentitySub {
+    type Case = IdentityCase;
+    fn name(&self) -> &'static str {
+        "identity"
+    }
+    fn eval(&self, c: &IdentityCase) -> Outcome {
+        let lab = law_label(c.ty);
+        let mask = c.mask & type_bits(c.ty);
+        let (y, m, d) = from_days(c.recv_day);
+        let t = t_of_ns(c.recv_ns);
+        let bit = |k: u16| mask & (1 << k) != 0;
+        let pd = PD {
+            year: bit(0).then_some(y as i32),
+            month: bit(1).then_some(m),
+            month_code: bit(2).then(|| format!("M{m:02}")),
+            day: bit(3).then_some(d),
+            era: None,
+            era_year: None,
+        };
+        let pt = PT {
+            hour: bit(4).then_some(t[0] as u8),
+            minute: bit(5).then_some(t[1] as u8),
+            second: bit(6).then_some(t[2] as u8),
+            millisecond: bit(7).then_some(t[3]),
+            microsecond: bit(8).then_some(t[4]),
+            nanosecond: bit(9).then_some(t[5]),
+        };
+        let v = Val::recv(c.ty, c.recv_day, c.recv_ns);
+        let mut o = Outcome::pass().class(match c.ty {
+            Ty::Date => "identity:date",
+            Ty::Time => "identity:time",
+            Ty::DateTime | Ty::Zoned => "identity:datetime",
+            Ty::YearMonth => "identity:yearmonth",
+        });
+        o = o.nontrivial(mask != 0 && (mask != type_bits(c.ty) || (bit(1) && bit(2))));
+        if bit(1) && bit(2) {
+            o = o.class("month+monthCode");
+        }
+        let got = match guard(|| v.with(&pd, &pt, c.ov)) {
+            Ok(r) => r,
+            Err(p) => {
+                let loc = p.split(": ").next().unwrap_or("panic@?").to_string();
+                return o.class("panic").fail(format!("C17/identity/{lab}/{loc}"), "no panic", p);
+            }
+        };
+        if mask == 0 {
+            o = o.class("empty-record");
+            match &got {
+                Err(e) => chk!(o, e.kind() == ErrorKind::Type, format!("C17/identity/{lab}/empty/error-kind"), "TypeError", err_str(e)),
+                Ok(g) => {
+                    let sig = if c.ty == Ty::YearMonth && g.fields() == v.fields() { SIG_YM_EMPTY.to_string() } else { format!("C17/identity/{lab}/empty/accepted") };
+                    o = o.fail(sig, "TypeError", format!("{:?}", g.fields()));
+                }
+            }
+            return o;
+        }
+        match &got {
+            Ok(g) => chk!(o, g.fields() == v.fields(), format!("C17/identity/{lab}/changed"), v.fields(), g.fields()),
+            Err(e) => o = o.fail(format!("C17/identity/{lab}/error"), format!("{:?}", v.fields()), err_str(e)),
+        }
+        o
+    }
+}
+
+#[derive(Serialize, Deserialize, Debug, Clone)]
+pub struct ComposeCase {
+    pub ty: Ty,
+    pub recv_day: i64,
+    pub recv_ns: i128,
+    pub p1: (PD, PT),
+    pub p2: (PD, PT),
+}
+pub struct ComposeSub;
+
+fn merge_partials(p1: &(PD, PT), p2: &(PD, PT)) -> (PD, PT) {
+    let (d1, t1) = p1;
+    let (d2, t2) = p2;
+    let p2_month = d2.month.is_some() || d2.month_code.is_some();
+    (
+        PD {
+            year: d2.year.or(d1.year),
+            month: if p2_month { d2.month } else { d1.month },
+            month_code: if p2_month { d2.month_code.clone() } else { d1.month_code.clone() },
+            day: d2.day.or(d1.day),
+            era: None,
+            era_year: None,
+        },
+        PT {
+            hour: t2.hour.or(t1.hour),
+            minute: t2.minute.or(t1.minute),
+            second: t2.second.or(t1.second),
+            millisecond: t2.millisecond.or(t1.millisecond),
+            microsecond: t2.microsecond.or(t1.microsecond),
+            nanosecond: t2.nanosecond.or(t1.nanosecond),
+        },
+    )
+}
+
+/// drop what is not a field of the type (and era fields)
+fn project(ty: Ty, p: &(PD, PT)) -> (PD, PT) {
+    let mut d = p.0.clone();
+    let mut t = p.1;
+    d.era = None;
+    d.era_year = None;
+    match ty {
+        Ty::Date => t = PT::default(),
+        Ty::Time => d = PD::default(),
+        Ty::YearMonth => {
+            d.day = None;
+            t = PT::default();
+        }
+        _ => {}
+    }
+    (d, t)
+}
+
+impl SubCheck for ComposeSub {
+    type Case = ComposeCase;
+    fn name(&self) -> &'static str {
+        "compose"
+    }
+    fn eval(&self, c: &ComposeCase) -> Outcome {
+        let lab = law_label(c.ty);
+        let p1 = project(c.ty, &c.p1);
+        let p2 = project(c.ty, &c.p2);
+        let mut o = Outcome::pass().class(match c.ty {
+            Ty::Date => "compose:date",
+            Ty::Time => "compose:time",
+            Ty::DateTime | Ty::Zoned => "compose:datetime",
+            Ty::YearMonth => "compose:yearmonth",
+        });
+        if (p1.0.is_empty() && p1.1.is_empty()) || (p2.0.is_empty() && p2.1.is_empty()) {
+            return o.class("compose:empty-step(no claim)");
+        }
+        let pm = merge_partials(&p1, &p2);
+        let v = Val::recv(c.ty, c.recv_day, c.recv_ns);
+        let r = guard(|| {
+            let a = v.with(&p1.0, &p1.1, Ov::Reject);
+            let a = match a {
+                Ok(a) => a,
+                Err(_) => return None,
+            };
+            let b = a.with(&p2.0, &p2.1, Ov::Reject);
+            let m = v.with(&pm.0, &pm.1, Ov::Reject);
+            // the same chain under constrain (only compared when nothing can have been clamped)
+            let bc = v.with(&p1.0, &p1.1, Ov::Constrain).and_then(|a| a.with(&p2.0, &p2.1, Ov::Absent));
+            let mc = v.with(&pm.0, &pm.1, Ov::Constrain);
+            Some((b, m, bc, mc))
+        });
+        let r = match r {
+            Ok(r) => r,
+            Err(p) => {
+                let loc = p.split(": ").next().unwrap_or("panic@?").to_string();
+                return o.class("panic").fail(format!("C17/compose/{lab}/{loc}"), "no panic", p);
+            }
+        };
+        let Some((b, m, bc, mc)) = r else {
+            return o.class("compose:first-step-rejected(no claim)");
+        };
+        let overlap = (p1.0.year.is_some() && p2.0.year.is_some())
+            || ((p1.0.month.is_some() || p1.0.month_code.is_some()) && (p2.0.month.is_some() || p2.0.month_code.is_some()))
+            || (p1.0.day.is_some() && p2.0.day.is_some())
+            || p1.1.arr().iter().zip(p2.1.arr().iter()).any(|(a, b)| a.is_some() && b.is_some());
+        o = o.nontrivial(true);
+        if overlap {
+            o = o.class("compose:overlapping-fields");
+        }
+        match (&b, &m) {
+            (Ok(x), Ok(y)) => {
+                o = o.class("compose:chain-ok");
+                chk!(o, x.fields() == y.fields(), format!("C17/compose/{lab}/mismatch"), x.fields(), y.fields());
+                // nothing was clamped: the constrain chain and the constrain merge give the same value
+                match (&bc, &mc) {
+                    (Ok(xc), Ok(yc)) => {
+                        chk!(o, xc.fields() == x.fields() && yc.fields() == x.fields(), format!("C17/compose/{lab}/constrain-differs-from-reject"), x.fields(), (xc.fields(), yc.fields()));
+                    }
+                    _ => o = o.fail(format!("C17/compose/{lab}/constrain-rejects-what-reject-accepts"), format!("{:?}", x.fields()), format!("{} / {}", show_val(&bc), show_val(&mc))),
+                }
+            }
+            (Err(x), Err(y)) => {
+                o = o.class("compose:second-step-rejected");
+                chk!(o, x.kind() == y.kind(), format!("C17/compose/{lab}/error-kinds-differ"), kind_name(x.kind()), kind_name(y.kind()));
+            }
+            _ => o = o.fail(format!("C17/compose/{lab}/verdicts-differ"), format!("two steps: {}", show_val(&b)), format!("merged: {}", show_val(&m))),
+        }
+        o
+    }
+}
+
+// ------------------------------------------------------------------------------------------
+// generators
+
+fn year_val() -> BoxedStrategy<i32> {
+    prop_oneof![
+        6 => -271821i32..=275760,
+        4 => 1900i32..=2100,
+        2 => proptest::sample::select(vec![0, 1, -1, 4, 100, 400, 1970, 1972, 2000, 2024, 9999, 10000, -271821, -271820, 275760, 275759]),
+        2 => proptest::sample::select(vec![-271822, 275761, i32::MIN, i32::MAX, i32::MIN + 1, i32::MAX - 1, 1 << 24, -(1 << 24), 5_000_000, -5_000_000, 65535, 1 << 16]),
+        1 => any::<i32>(),
+    ]
+    .boxed()
+}
+fn month_val() -> BoxedStrategy<u8> {
+    prop_oneof![
+        6 => 1u8..=12,
+        1 => Just(0u8),
+        1 => Just(13u8),
+        1 => proptest::sample::select(vec![14u8, 100, 255, 12, 1, 2]),
+        1 => any::<u8>(),
+    ]
+    .boxed()
+}
+fn day_val() -> BoxedStrategy<u8> {
+    prop_oneof![
+        4 => 1u8..=28,
+        4 => 28u8..=31,
+        1 => Just(0u8),
+        1 => Just(32u8),
+        1 => proptest::sample::select(vec![255u8, 100, 1, 31, 30, 29]),
+        1 => any::<u8>(),
+    ]
+    .boxed()
+}
+fn month_code_val() -> BoxedStrategy<String> {
+    prop_oneof![
+        7 => (1u8..=12).prop_map(|m| format!("M{m:02}")),
+        2 => proptest::sample::select(vec!["M13", "M00", "M05L", "M12L", "M13L", "M99", "M00L", "M01L"]).prop_map(String::from),
+    ]
+    .boxed()
+}
+fn era_val() -> BoxedStrategy<String> {
+    proptest::sample::select(vec!["default", "ce", "bce", "gregory", "iso8601", "reiwa"]).prop_map(String::from).boxed()
+}
+fn small_field(max: u8) -> BoxedStrategy<u8> {
+    prop_oneof![
+        6 => 0u8..=max,
+        1 => Just(max),
+        1 => Just(max + 1),
+        1 => proptest::sample::select(vec![0u8, 1, 255, 60, 24, 100]),
+        1 => any::<u8>(),
+    ]
+    .boxed()
+}
+fn sub_field() -> BoxedStrategy<u16> {
+    prop_oneof![
+        6 => 0u16..=999,
+        1 => Just(999u16),
+        1 => Just(1000u16),
+        1 => proptest::sample::select(vec![0u16, 1, 255, 256, 65535, 1001, 32768]),
+        1 => any::<u16>(),
+    ]
+    .boxed()
+}
+
+/// date partial with the four main fields chosen by `mask` (bit 0 year, 1 month, 2 monthCode, 3 day);
+/// when month and monthCode are both present they agree half of the time
+fn pd_with_mask(mask: BoxedStrategy<u8>, era_weight: f64) -> BoxedStrategy<PD> {
+    (
+        mask,
+        (year_val(), month_val(), month_code_val(), day_val()),
+        prop::bool::ANY,
+        (prop::bool::weighted(era_weight), prop::bool::weighted(era_weight), era_val(), year_val()),
+    )
+        .prop_map(|(mask, (y, m, mc, d), agree, (has_era, has_era_year, era, era_year))| {
+            let mc = if agree && mask & 0b110 == 0b110 && (1..=12).contains(&m) { format!("M{m:02}") } else { mc };
+            PD {
+                year: (mask & 1 != 0).then_some(y),
+                month: (mask & 2 != 0).then_some(m),
+                month_code: (mask & 4 != 0).then_some(mc),
+                day: (mask & 8 != 0).then_some(d),
+                era: has_era.then_some(era),
+                era_year: has_era_year.then_some(era_year),
+            }
+        })
+        .boxed()
+}
+fn any_mask4() -> BoxedStrategy<u8> {
+    (0u8..16).boxed()
+}
+/// subsets for `from_partial`: half of them contain the required fields
+fn from_mask4() -> BoxedStrategy<u8> {
+    prop_oneof![
+        3 => proptest::sample::select(vec![0b1011u8, 0b1101, 0b1111, 0b0011, 0b0101, 0b0111]),
+        2 => 0u8..16,
+    ]
+    .boxed()
+}
+fn pt_any() -> BoxedStrategy<PT> {
+    (
+        prop_oneof![6 => 0u8..64, 1 => Just(0u8), 1 => Just(63u8)],
+        (small_field(23), small_field(59), small_field(59)),
+        (sub_field(), sub_field(), sub_field()),
+    )
+        .prop_map(|(mask, (h, mi, s), (ms, us, ns))| PT {
+            hour: (mask & 1 != 0).then_some(h),
+            minute: (mask & 2 != 0).then_some(mi),
+            second: (mask & 4 != 0).then_some(s),
+            millisecond: (mask & 8 != 0).then_some(ms),
+            microsecond: (mask & 16 != 0).then_some(us),
+            nanosecond: (mask & 32 != 0).then_some(ns),
+        })
+        .boxed()
+}
+fn ov_any() -> BoxedStrategy<Ov> {
+    proptest::sample::select(vec![Ov::Absent, Ov::Constrain, Ov::Reject, Ov::Constrain, Ov::Reject]).boxed()
+}
+fn zone_any() -> BoxedStrategy<ZoneSel> {
+    prop_oneof![
+        2 => Just(ZoneSel::UtcNamed),
+        3 => (-1439i16..=1439).prop_map(ZoneSel::Offset),
+        1 => proptest::sample::select(vec![-1439i16, 1439, 0, 330, -570, 765, -720, 840]).prop_map(ZoneSel::Offset),
+        2 => (-1439i16..=1439).prop_map(ZoneSel::Table),
+    ]
+    .boxed()
+}
+
+fn merge_case() -> BoxedStrategy<MergeCase> {
+    let ty_op = proptest::sample::select(vec![
+        (Ty::Date, Op::With),
+        (Ty::Date, Op::With),
+        (Ty::Date, Op::From),
+        (Ty::Time, Op::With),
+        (Ty::Time, Op::From),
+        (Ty::DateTime, Op::With),
+        (Ty::DateTime, Op::With),
+        (Ty::DateTime, Op::From),
+        (Ty::YearMonth, Op::With),
+        (Ty::YearMonth, Op::From),
+        (Ty::Zoned, Op::From),
+    ]);
+    (ty_op, gen::datetime(), pd_with_mask(any_mask4(), 0.1), pd_with_mask(from_mask4(), 0.1), pt_any(), ov_any(), zone_any(), prop::bool::weighted(0.3))
+        .prop_map(|((ty, op), (recv_day, recv_ns), pd_with, pd_from, pt, ov, zone, offset_given)| {
+            let pd = if op == Op::With { pd_with } else { pd_from };
+            // normalise what the case does not use, so that distinct cases are distinct inputs
+            let (recv_day, recv_ns) = if op == Op::With { (recv_day, recv_ns) } else { (0, 0) };
+            let (zone, offset_given) = if ty == Ty::Zoned { (zone, offset_given) } else { (ZoneSel::UtcNamed, false) };
+            let pd = if ty == Ty::Time { PD::default() } else { pd };
+            let pt = if matches!(ty, Ty::Date | Ty::YearMonth) { PT::default() } else { pt };
+            let (recv_day, recv_ns) = match ty {
+                Ty::Time => (0, recv_ns),
+                Ty::Date | Ty::YearMonth => (recv_day, 0),
+                _ => (recv_day, recv_ns),
+            };
+            MergeCase { ty, op, recv_day, recv_ns, pd, pt, ov, zone, offset_given }
+        })
+        .boxed()
+}
+
+fn ctor_case() -> BoxedStrategy<CtorCase> {
+    (
+        proptest::sample::select(vec![Ty::Date, Ty::Time, Ty::DateTime, Ty::YearMonth]),
+        proptest::sample::select(vec![Ctor::New, Ctor::TryNew, Ctor::WithOverflow(false), Ctor::WithOverflow(true)]),
+        (year_val(), month_val(), day_val(), proptest::option::weighted(0.6, day_val())),
+        (small_field(23), small_field(59), small_field(59)),
+        (sub_field(), sub_field(), sub_field()),
+    )
+        .prop_map(|(ty, ctor, (year, month, day, ref_day), hms, sub)| {
+            let ctor = if ty == Ty::YearMonth {
+                match ctor {
+                    Ctor::New | Ctor::WithOverflow(false) => Ctor::WithOverflow(false),
+                    _ => Ctor::WithOverflow(true),
+                }
+            } else {
+                ctor
+            };
+            let has_date = ty != Ty::Time;
+            let has_time = ty == Ty::Time || ty == Ty::DateTime;
+            CtorCase {
+                ty,
+                ctor,
+                year: if has_date { year } else { 0 },
+                month: if has_date { month } else { 0 },
+                day: if has_date && ty != Ty::YearMonth { day } else { 0 },
+                ref_day: if ty == Ty::YearMonth { ref_day } else { None },
+                hms: if has_time { [hms.0, hms.1, hms.2] } else { [0; 3] },
+                sub: if has_time { [sub.0, sub.1, sub.2] } else { [0; 3] },
+            }
+        })
+        .boxed()
+}
+
+fn identity_case() -> BoxedStrategy<IdentityCase> {
+    (proptest::sample::select(vec![Ty::Date, Ty::Time, Ty::DateTime, Ty::YearMonth]), gen::datetime(), 0u16..1024, ov_any())
+        .prop_map(|(ty, (recv_day, recv_ns), mask, ov)| {
+            let (recv_day, recv_ns) = match ty {
+                Ty::Time => (0, recv_ns),
+                Ty::Date | Ty::YearMonth => (recv_day, 0),
+                _ => (recv_day, recv_ns),
+            };
+            IdentityCase { ty, recv_day, recv_ns, mask: mask & type_bits(ty), ov }
+        })
+        .boxed()
+}
+
+/// in-range biased partials for the composition law
+fn law_partial() -> BoxedStrategy<(PD, PT)> {
+    let pd = (
+        prop_oneof![3 => proptest::sample::select(vec![0u8, 1, 2, 4, 8, 8, 2, 4]), 2 => 0u8..16],
+        (prop_oneof![3 => 1900i32..=2100, 2 => -271821i32..=275760, 1 => proptest::sample::select(vec![-271821, -271820, 275760, 275759, 0, -1, 2000, 2024])], prop_oneof![9 => 1u8..=12, 1 => month_val()], month_code_val(), prop_oneof![9 => 1u8..=31, 1 => day_val()]),
+        prop::bool::weighted(0.8),
+    )
+        .prop_map(|(mask, (y, m, mc, d), agree)| {
+            let mc = if agree && mask & 0b110 == 0b110 && (1..=12).contains(&m) { format!("M{m:02}") } else { mc };
+            PD {
+                year: (mask & 1 != 0).then_some(y),
+                month: (mask & 2 != 0).then_some(m),
+                month_code: (mask & 4 != 0).then_some(mc),
+                day: (mask & 8 != 0).then_some(d),
+                era: None,
+                era_year: None,
+            }
+        });
+    let pt = (
+        prop_oneof![3 => Just(0u8), 3 => proptest::sample::select(vec![1u8, 2, 4, 8, 16, 32]), 2 => 0u8..64],
+        (prop_oneof![9 => 0u8..=23, 1 => small_field(23)], prop_oneof![9 => 0u8..=59, 1 => small_field(59)], prop_oneof![9 => 0u8..=59, 1 => small_field(59)]),
+        (prop_oneof![9 => 0u16..=999, 1 => sub_field()], prop_oneof![9 => 0u16..=999, 1 => sub_field()], prop_oneof![9 => 0u16..=999, 1 => sub_field()]),
+    )
+        .prop_map(|(mask, (h, mi, s), (ms, us, ns))| PT {
+            hour: (mask & 1 != 0).then_some(h),
+            minute: (mask & 2 != 0).then_some(mi),
+            second: (mask & 4 != 0).then_some(s),
+            millisecond: (mask & 8 != 0).then_some(ms),
+            microsecond: (mask & 16 != 0).then_some(us),
+            nanosecond: (mask & 32 != 0).then_some(ns),
+        });
+    (pd, pt).boxed()
+}
+fn compose_case() -> BoxedStrategy<ComposeCase> {
+    (proptest::sample::select(vec![Ty::Date, Ty::Time, Ty::DateTime, Ty::DateTime, Ty::YearMonth]), gen::datetime(), law_partial(), law_partial())
+        .prop_map(|(ty, (recv_day, recv_ns), p1, p2)| {
+            let (recv_day, recv_ns) = match ty {
+                Ty::Time => (0, recv_ns),
+                Ty::Date | Ty::YearMonth => (recv_day, 0),
+                _ => (recv_day, recv_ns),
+            };
+            ComposeCase { ty, recv_day, recv_ns, p1: project(ty, &p1), p2: project(ty, &p2) }
+        })
+        .boxed()
+}
+
+// ------------------------------------------------------------------------------------------
+
+pub fn run(ctx: &mut Ctx) {
+    ctx.rule = "merge: generated (type in {PlainDate, PlainTime, PlainDateTime, PlainYearMonth} x {with, from_partial}, ZonedDateTime::from_partial_with_provider with UTC / UtcOffset / fixed table zones and an optional matching offset) x receiver (boundary-biased date-times) x every subset of {year, month, monthCode, day, era, eraYear} and of the six time fields x values over the full u8/u16/i32 ranges biased to {0, 1, max, max+1, 255, 65535, -271821, 275760 +-1, i32::MIN/MAX} x month codes {M01..M12, M13, M00, M99, M05L, M12L, M13L, M00L, M01L} x overflow {absent, constrain, reject}, ISO calendar; oracle: reference merge (supplied field else receiver's / type default; monthCode must be M01..M12; month must equal the month code's number; constrain clamps month to 1..=12, day to 1..=days_in_month(resulting year, resulting month), time fields to their maxima, 0 -> 1 for month and day; reject -> RangeError; missing required field / empty record -> TypeError, when a range problem of a supplied value coexists either kind is admitted; result inside the supported range of the type else RangeError), plus the model-free law that a field that was not supplied keeps the receiver's value unless the day had to be clamped to the month end. ctor: new / try_new / new_with_overflow of the four plain types against the same regulation. identity: v.with(any subset of v's own fields, month and/or monthCode) == v, empty subset -> TypeError. compose: v.with(p1).with(p2) == v.with(p1 merged p2) whenever the chain succeeds under reject (so nothing was clamped), verdicts and error kinds agree otherwise, and the same chain under constrain gives the same value. non-trivial = at least one field supplied and at least one absent, or a supplied value out of range, or month and monthCode both present.".into();
+    ctx.assumptions.push("ISO calendar only; era / eraYear on the ISO calendar are executed but not judged (Temporal ignores them for iso8601, the crate defines an ISO era named 'default')".into());
+    ctx.note("unjudged classes: (1) any record that supplies era or eraYear (ISO calendar); (2) PlainYearMonth::with with only `day` supplied (Temporal: empty record -> TypeError, crate: record not empty); (3) PlainYearMonth::from_partial under reject with a `day` that is invalid for the month (Temporal ignores day, the crate regulates it as reference day).");
+    ctx.note("ZonedDateTime::with is 'Not yet implemented' in the crate and is not exercised; the time zone is always supplied (its absence is outside the date/time field merge).");
+    let t = ctx.tier;
+    ctx.run_prop(&MergeSub, &merge_case, t.pick(1_500_000, 24_000_000));
+    ctx.run_prop(&CtorSub, &ctor_case, t.pick(300_000, 3_000_000));
+    ctx.run_prop(&IdentitySub, &identity_case, t.pick(200_000, 1_500_000));
+    ctx.run_prop(&ComposeSub, &compose_case, t.pick(400_000, 3_000_000));
+}
+
+pub fn replay(ctx: &mut Ctx, sub: &str, case: &Value) -> bool {
+    match sub {
+        "merge" => ctx.replay_case(&MergeSub, case),
+        "ctor" => ctx.replay_case(&CtorSub, case),
+        "identity" => ctx.replay_case(&IdentitySub, case),
+        "compose" => ctx.replay_case(&ComposeSub, case),
+        _ => false,
+    }
 }
